@@ -9,7 +9,9 @@ from ..rtc import par
 LEVEL = "exploration"
 logging.getLogger("formulae").setLevel(logging.ERROR)
 
-ATOMS = ["a", "b", "c", "f(x)", "f(x, 2)", "f(x, k=1)", "f(x, k=2)"]
+ATOMS = ["a", "b", "c", "f(x)", "f(x, 2)", "f(x, k=1)", "f(x, k=2)",
+         # calls of one function whose arguments differ in kind at one position (variable / call / operation / number)
+         "f(g(x))", "f(x + 1)"]
 OPS = ["+", "-", ":", "*", "/"]
 EFFECTS = ["x", "1", "0 + x", "x + 0", "x - 1", "1 + x", "x + 1", "x + z", "0 + x + z", "-1 + x", "x - 1 + z",
            "x:z", "x*z", "x/z", "f(x) + z", "x + z - 1", "x + z + 0", "1 + x - 1", "1 - 1 + x", "x*z - 1"]
@@ -51,6 +53,11 @@ def formulas(tier, rng):
         for p, q in ((A, B), (B, A)):
             out += [f"{p} {op} {q}" for op in OPS] + [f"({p} + {q})**2", f"({p}|g) + ({q}|g)", f"({p} + {q}|g)", f"(1|{p}) + (1|{q})",
                                                       f"a:{p} + a:{q}", f"{p} + a - {q}", f"({p} + a) * ({q} + b)"]
+    # the same callee with arguments of different kinds, in both orders (term identity compares the arguments element by element)
+    KINDS_ = ["f(x)", "f(g(x))", "f(x + 1)", "f(2)", "f('s')", "f(x, 2)", "f(g(x), 2)", "f(x, k=g(x))", "f(x, k=x)", "f(x, k=2)", "f(-x)", "f(g(x) + 1)"]
+    for p in KINDS_:
+        for q in KINDS_:
+            out += [f"{p} + {q}", f"y ~ {p}:{q}", f"({p} + a) * ({q} + b)", f"(1|{p}) + (1|{q})"]
     # differences and repeated groups of multi-term operands (three and more operators; the exhaustive part stops at two)
     LEFTS = ["a + b", "a + b + c", "a*b", "a/b", "(a + b + c)**2", "a + f(x) + b", "a*b*c"]
     RIGHTS = ["a + b", "a + a:b", "b + c", "a:b + a", "a + f(x)", "a:b + a:c", "b + a"]
@@ -66,6 +73,7 @@ def formulas(tier, rng):
             for op in ("/", "*", ":"):
                 for u in ("a", "b", "a:b", "a:c"):
                     out += [f"y ~ ({l} {op} ({B}) - {u})", f"(({l} {op} ({B})) - {u}) + c", f"(({B}) {op} {l} - {u})"]
+    out += random_formulas(rng, 3000 if tier == "quick" else 40000)
     pick = base if tier == "thorough" else rng.sample(base, min(len(base), 1500))
     for f in pick:
         out += [f"y ~ {f}", f"y ~ 0 + {f}", f"{f} - 1", f"y ~ {f} + 1", f"f(y) ~ 1 + {f}", f"y ~ {f} + 0"]
@@ -111,6 +119,32 @@ def chains(tier, rng):
             out += [(plain, full), (f"y ~ {plain}", f"y ~ {full}"), (f"y ~ x + ({plain}|g)", f"y ~ x + ({full}|g)")]
             out.append((plain.replace(" ", ""), full))
     return out if tier == "thorough" else rng.sample(out, min(len(out), 400)) + out[:160]
+
+
+def random_formulas(rng, count):
+    """Grammar-generated formulas of depth <= 4 over a rich atom pool (the same callee with arguments of every kind, nested calls,
+    quoted names, levels, {..}), group terms included; judged by the same specification (what it does not define is skipped)."""
+    atoms = ["a", "b", "c", "d", "f(x)", "f(g(x))", "f(x + 1)", "f(x, 2)", "f(2, x)", "f(x, k=g(x))", "f(x, k='s')", "g(f(x))", "g(x)", "{x + 1}",
+             "{x * 2}", "I(x + 1)", "`w w`", "a['u']", "np.log(x)", "np.log(np.abs(x))", "f(-x)", "f(x ** 2)", "h(x, y, z)", "h(x, g(y), z)"]
+    ops = ["+", "+", "-", ":", "*", "/"]
+
+    def gen(d):
+        r = rng.random()
+        if d == 0 or r < 0.3:
+            return rng.choice(atoms)
+        if r < 0.4:
+            return "(" + gen(d - 1) + ")**" + rng.choice("23")
+        if r < 0.5:
+            return "(" + gen(d - 1) + ")"
+        return gen(d - 1) + " " + rng.choice(ops) + " " + gen(d - 1)
+    out = []
+    for _ in range(count):
+        f = gen(rng.randint(1, 4))
+        r = rng.random()
+        if r < 0.25:
+            f += f" + ({rng.choice(['1', 'a', '0 + a', 'f(x)', 'f(g(x)) + a'])}|{rng.choice(['g', 'g:h', 'f(x)', 'f(g(x))', 'g + h'])})"
+        out.append(("y ~ " if rng.random() < 0.6 else "") + f)
+    return out
 
 
 def late_removal(tree):
@@ -262,18 +296,23 @@ def _chunk(forms):
 
 
 def PROOFS():
-    from ..contracts import algebra_c, parser_c
+    from ..contracts import algebra_c, parser_c, operators_c
     T = "formulae.terms.terms."
     R = "formulae.terms.call_resolver."
     from ..contracts import terms_c
     return [("vf.contracts.terms_c", terms_c.IDENTITY + [T + "Term.__init__", T + "Term.__eq__", T + "Model.__init__", T + "Model.add_term", T + "Model.terms",
                                       T + "Model.__add__", T + "Model.__sub__", T + "Model.__add__#model", T + "Model.__sub__#model"]),
             ("vf.contracts.call_resolver_c", [R + c for c in ("LazyValue.__eq__", "LazyCall.__eq__", "LazyOperator.__eq__", "LazyVariable.__eq__",
-                                                              "LazyValue.__hash__", "LazyVariable.__hash__")]),
+                                                              "LazyValue.__hash__", "LazyVariable.__hash__",
+                                                              # compared with an object of another class: not equal (and no exception)
+                                                              "LazyValue.__eq__#other", "LazyCall.__eq__#other", "LazyOperator.__eq__#other",
+                                                              "LazyVariable.__eq__#other")]),
             ("vf.contracts.variable_c", ["formulae.terms.call.Call.__eq__", "formulae.terms.call.Call.__hash__",
                                          "formulae.terms.variable.Variable.__eq__", "formulae.terms.variable.Variable.__hash__"]),
             # the Resolver: every operator token is wired to the documented operator of the term classes, operands in source order
             ("vf.contracts.algebra_c", algebra_c.FUNCTIONS),
+            # ':' on Models: the set of pairwise interactions, each once, operands untouched (product() by its defining property)
+            ("vf.contracts.operators_c", operators_c.FUNCTIONS),
             # the syntax tree the Resolver is given: the parser's binary levels (documented precedence, left-associative)
             ("vf.contracts.parser_c", parser_c.FUNCTIONS)]
 
